@@ -152,7 +152,8 @@ def check_drop(ctx):
         if is_atomic(name) and atomic_op(name) == 'load':
             return sym('load(%s)' % (tag_of(args[0]) or '?'))
         return None
-    outs = run_traces(f, rec, [MR(-1, 0, (), sym('self'))], hook=hook, inline_depth=0)
+    # private accessors of the module (e.g. `self.current_disk_usage()` for the load) are followed
+    outs = run_traces(f, rec, [MR(-1, 0, (), sym('self'))], hook=hook, inline_depth=2, inline_only=(DM, '<' + DM))
     kinds = set()
     for o in outs:
         ev = atom_events(o)
@@ -249,7 +250,17 @@ def check_census(ctx):
                     fields.add(tg.rsplit('.', 1)[-1])
         for fld in fields & set(allowed):
             n += 1
-            if c not in allowed[fld]:
+            # a private helper whose every caller is a function of the protocol for this counter (or such a helper) is part of the protocol:
+            # its effect is accounted for in its callers' path rules above, where it is followed
+            def inherits(fn, seen=()):
+                if fn in allowed[fld]:
+                    return True
+                r = f.fn(fn)
+                if r is None or r.get('pub') or fn in seen:
+                    return False
+                cs = [x.split('::{closure')[0] for x in f.callers_of(fn)]
+                return bool(cs) and all(inherits(x, seen + (fn,)) for x in cs)
+            if c not in allowed[fld] and not inherits(c):
                 ctx.fail(rule, '%s in %s' % (fld, c), ctx.loc(rec), 'counter %s is modified outside the accounting protocol (allowed: %s)' % (fld, sorted(allowed[fld])),
                          key='%s|%s|%s' % (rule, fld, c))
             else:
